@@ -81,7 +81,12 @@ def judge(rep, cases, res, props_file, props_parse):
     require_ok(r, "Trace_FileDest")
     rep.cov["states"] += r.distinct
     rep.cov["transitions"] += r.distinct
-    acc = {t[1]: t for t in printed_tuples(r.out, "ACC")}
+    acc = {}
+    for t in printed_tuples(r.out, "ACC"):
+        # TLC chooses what was not logged (did a write spill? did a flush in progress complete?): accepted if SOME choice explains
+        # the observation
+        if t[1] not in acc or (t[2] == "" and acc[t[1]][2] != ""):
+            acc[t[1]] = t
     ptraces = [t for t in res["parser_traces"] if t]
     pacc = {}
     if ptraces:
